@@ -312,9 +312,16 @@ fn parse_closure(s: &str) -> Option<Cl> {
 
 impl Cl {
     /// the body of the user closure
-    fn call(&self, invoked: &Cell<bool>) -> Vec<(String, String)> {
+    fn call(&self, invoked: &Cell<bool>) -> Box<dyn Iterator<Item = (String, String)>> {
         invoked.set(true);
         *CLOSURE_CALLS.lock().unwrap() += 1;
+        if self.reenter == 5 {
+            // a lazy iterator: every item is produced by user code that itself uses the tracing API
+            return Box::new(self.kvs.clone().into_iter().map(|kv| {
+                let _s = LocalSpan::enter_with_local_parent("cl");
+                kv
+            }));
+        }
         match self.reenter {
             1 => {
                 let _s = LocalSpan::enter_with_local_parent("cl");
@@ -328,7 +335,7 @@ impl Cl {
             }
             _ => {}
         }
-        self.kvs.clone()
+        Box::new(self.kvs.clone().into_iter())
     }
 }
 
@@ -380,6 +387,30 @@ fn thread_op(k: usize, guards: &mut Vec<G>, w: &[&str]) -> Option<String> {
             .sampled(*b == "1");
             put_span(v, Span::root(str_of_hex(n)?, ctx));
             "ok".into()
+        }
+        ["rootFrom", v, n, p, via] => {
+            // a root created from the context of span `p`, directly or after a traceparent round trip
+            let name = str_of_hex(n)?;
+            match with_span(p, |ps| SpanContext::from_span(ps)) {
+                None => "bad-op unknown span".into(),
+                Some(None) => "bad-op no context".into(),
+                Some(Some(ctx)) => {
+                    let ctx = if *via == "tp" { SpanContext::decode_w3c_traceparent(&ctx.encode_w3c_traceparent())? } else { ctx };
+                    put_span(v, Span::root(name, ctx));
+                    "ok".into()
+                }
+            }
+        }
+        ["rootFromLocal", v, n, via] => {
+            let name = str_of_hex(n)?;
+            match SpanContext::current_local_parent() {
+                None => "bad-op no context".into(),
+                Some(ctx) => {
+                    let ctx = if *via == "tp" { SpanContext::decode_w3c_traceparent(&ctx.encode_w3c_traceparent())? } else { ctx };
+                    put_span(v, Span::root(name, ctx));
+                    "ok".into()
+                }
+            }
         }
         ["child1", v, n, p] => {
             let name = str_of_hex(n)?;
